@@ -426,6 +426,70 @@ theorem Add_param {a : DDSketch M (GPS grow)} {b : DDSketch M Store} (h : SkSim 
   rw [Add_eq_AddWithCount, Add_eq_AddWithCount]
   exact AddWithCount_param h v (.fin 1) hp hn
 
+
+/-- `Add`/`AddWithCount` never change the mapping object -/
+theorem AddWithCount_mapping {S : Type} [StoreI S] [Inhabited S] (g : DDSketch M S) (v c : F64) :
+    (DDSketch.AddWithCount g v c).1.IndexMapping = g.IndexMapping := by
+  unfold DDSketch.AddWithCount
+  repeat' split
+  all_goals rfl
+
+/-- a history of `AddWithCount(value, count)` calls: the final receiver and the errors returned, in order -/
+def runAdds {S : Type} [StoreI S] [Inhabited S] (g : DDSketch M S) : List (F64 × F64) → DDSketch M S × List GoErr
+  | [] => (g, [])
+  | (v, c) :: rest =>
+    let r := DDSketch.AddWithCount g v c
+    let r' := runAdds r.1 rest
+    (r'.1, r.2 :: r'.2)
+
+theorem runAdds_mapping {S : Type} [StoreI S] [Inhabited S] (l : List (F64 × F64)) :
+    ∀ g : DDSketch M S, (runAdds g l).1.IndexMapping = g.IndexMapping := by
+  induction l with
+  | nil => intro g; rfl
+  | cons p rest ih =>
+    intro g
+    obtain ⟨v, c⟩ := p
+    show (runAdds (DDSketch.AddWithCount g v c).1 rest).1.IndexMapping = _
+    rw [ih, AddWithCount_mapping]
+
+/-- the index condition of `AddWithCount_param` for the mapping object `m` and the value `v` -/
+def Routed32 (m : M) (v : F64) : Prop :=
+  (F64.lt (MapI.MinIndexableValue m) v = true → Idx32 (MapI.Index m v)) ∧
+  (F64.lt v (F64.neg (MapI.MinIndexableValue m)) = true → Idx32 (MapI.Index m (F64.neg v)))
+
+/-- **histories**: every sequence of `AddWithCount` calls (any values, any counts — refused calls included) whose
+    routed indexes are int32 returns the same errors on the regenerated store as on the model store, and ends in
+    related sketches -/
+theorem runAdds_param (l : List (F64 × F64)) :
+    ∀ {a : DDSketch M (GPS grow)} {b : DDSketch M Store}, SkSim a b →
+      (∀ p ∈ l, Routed32 b.IndexMapping p.1) →
+      (runAdds a l).2 = (runAdds b l).2 ∧ SkSim (runAdds a l).1 (runAdds b l).1 := by
+  induction l with
+  | nil => intro a b h _; exact ⟨rfl, h⟩
+  | cons p rest ih =>
+    intro a b h hl
+    obtain ⟨v, c⟩ := p
+    have hv := hl (v, c) (List.mem_cons_self ..)
+    obtain ⟨e1, s1⟩ := AddWithCount_param h v c hv.1 hv.2
+    obtain ⟨e2, s2⟩ := ih s1 (fun q hq => by
+      rw [AddWithCount_mapping]; exact hl q (List.mem_cons_of_mem _ hq))
+    refine ⟨?_, s2⟩
+    show (DDSketch.AddWithCount a v c).2 :: _ = (DDSketch.AddWithCount b v c).2 :: _
+    rw [e1, e2]
+
+/-- the payoff in generic form: after any such history from `NewDDSketch` on fresh paginated stores, every
+    observer of the regenerated sketch over the regenerated store answers as over the model store -/
+theorem history_observers_param (m : M) (l : List (F64 × F64)) (hl : ∀ p ∈ l, Routed32 m p.1) :
+    let a := runAdds (NewDDSketch m (⟨NewBufferedPaginatedStore⟩ : GPS grow) ⟨NewBufferedPaginatedStore⟩) l
+    let b := runAdds (NewDDSketch m (Store.new .pag) (Store.new .pag)) l
+    a.2 = b.2 ∧ DDSketch.GetCount a.1 = DDSketch.GetCount b.1 ∧ DDSketch.IsEmpty a.1 = DDSketch.IsEmpty b.1 ∧
+    (∀ q, DDSketch.GetValueAtQuantile a.1 q = DDSketch.GetValueAtQuantile b.1 q) ∧
+    DDSketch.GetMinValue a.1 = DDSketch.GetMinValue b.1 ∧ DDSketch.GetMaxValue a.1 = DDSketch.GetMaxValue b.1 := by
+  intro a b
+  obtain ⟨he, hs⟩ := runAdds_param (grow := grow) l (skSim_new m) hl
+  exact ⟨he, GetCount_param hs, IsEmpty_param hs, fun q => GetValueAtQuantile_param hs q,
+    GetMinValue_param hs, GetMaxValue_param hs⟩
+
 end sketch
 
 end DDS.GenPagSketch
